@@ -109,7 +109,7 @@ pub struct Ev {
 }
 
 pub const MAX_EINTR_STREAK: u32 = 3;
-pub const MAX_SYSCALLS: u64 = 200_000;
+pub const MAX_SYSCALLS: u64 = 3_000_000;
 
 /// The I/O scheduler: the recorded fault plan applied to the calls an operation actually makes.
 pub struct IoSched {
@@ -372,6 +372,9 @@ impl IoSched {
         out
     }
 
+    pub fn eintr_fired(&self, op: u32) -> bool {
+        self.fired_at.iter().any(|(k, o, _)| *o == op && k.starts_with("eintr"))
+    }
     pub fn any_fired(&self) -> bool {
         self.fired.iter().any(|x| *x > 0)
     }
